@@ -411,7 +411,11 @@ def _folds_inbox_prefix(fi) -> str | None:
     for iff in body_walk(fi.node):
         if not isinstance(iff, ast.If):
             continue
-        for cmp_ in ast.walk(iff.test):
+        if not (isinstance(iff.test, ast.BoolOp) and isinstance(iff.test.op, ast.And)) and not isinstance(iff.test, ast.Compare):
+            continue  # `<has a delimiter> and <first level is inbox>` (or the bare comparison)
+        for cmp_, pos_ in polarity_atoms(iff.test):
+            if not pos_:
+                continue
             if isinstance(cmp_, ast.Compare) and len(cmp_.ops) == 1 and isinstance(cmp_.ops[0], ast.Eq) and isinstance(cmp_.left, ast.Call) and call_name(cmp_.left) in ("lower", "casefold") and isinstance(cmp_.comparators[0], ast.Constant) and cmp_.comparators[0].value == "inbox":
                 r = call_recv(cmp_.left)
                 if isinstance(r, ast.Name) and r.id in firsts:
